@@ -222,7 +222,10 @@ func childC18(args []string) int {
 					defer wg.Done()
 					for h := 0; h < H; h++ {
 						atomic.AddInt32(&gates[h], 1)
-						for atomic.LoadInt32(&gates[h]) < G {
+						for spins := 0; atomic.LoadInt32(&gates[h]) < G; spins++ {
+							if spins > 20000 {
+								runtime.Gosched() // more spinners than free processors
+							}
 						}
 						metrics.ObserveHist(hid[h], vals[h][g])
 					}
@@ -560,7 +563,10 @@ func childC18(args []string) int {
 				go func(g int) {
 					defer wg.Done()
 					atomic.AddInt32(&gate, 1)
-					for atomic.LoadInt32(&gate) < G {
+					for spins := 0; atomic.LoadInt32(&gate) < G; spins++ {
+						if spins > 20000 {
+							runtime.Gosched()
+						}
 					}
 					for i := 0; i < 25; i++ {
 						n := len(ids[g])
